@@ -45,7 +45,7 @@ REQUIRED = ('static_attributes_compared', 'variant_codes_checked',
             'pot_limit_offers_raked_pot',
             'rounds_capped_at_four', 'hole_facings_checked',
             'split_low_pushed', 'split_no_low', 'variants_played',
-            'interleave_points')
+            'interleave_points', 'round_openers_compared')
 
 D, U = False, True
 P = 'POSITION'
